@@ -72,7 +72,7 @@ Definition PURE_OPS : list string :=
    "and"; "or"; "xor"; "not"; "byte"; "shl"; "shr"; "sar"; "signextend"; "assign"; "alloca"; "offset"; "nop"].
 Definition ENV_OPS : list string :=
   ["calldataload"; "calldatasize"; "caller"; "callvalue"; "address"; "origin"; "codesize"; "gasprice"; "coinbase";
-   "timestamp"; "number"; "prevrandao"; "gaslimit"; "chainid"; "basefee"; "blobbasefee"; "blockhash"; "blobhash"].
+   "timestamp"; "number"; "prevrandao"; "gaslimit"; "chainid"; "basefee"; "blobbasefee"; "blockhash"; "blobhash"; "initial_fmp"].
 
 Definition shape_of (op : string) : shape :=
   if is_in op PURE_OPS then sh_pure else
@@ -85,6 +85,9 @@ Definition shape_of (op : string) : shape :=
   if op =s "sload" then mkSh [mkSR Sto (PArg a0) (SzC 1)] [] [] [] true false false else
   if op =s "tload" then mkSh [mkSR Tra (PArg a0) (SzC 1)] [] [] [] true false false else
   if op =s "iload" then sh_read [Imm; Mem] else
+  (* the free-memory-pointer register *)
+  if op =s "getfmp" then sh_read [Fmp] else
+  if is_in op ["dalloca"; "bump"; "setfmp"] then mkSh [] [] [Fmp] [Fmp] false false false else
   if op =s "mstore" then mkSh [] [mem_r a1 (SzC 32)] [] [] true false false else
   if op =s "sstore" then mkSh [] [mkSR Sto (PArg a1) (SzC 1)] [] [] true false false else
   if op =s "tstore" then mkSh [] [mkSR Tra (PArg a1) (SzC 1)] [] [] true false false else
@@ -109,7 +112,7 @@ Definition shape_of (op : string) : shape :=
   if op =s "stop" then sh_read PERSIST else
   if op =s "selfdestruct" then sh_read PERSIST else
   if op =s "invalid" then sh_pure else
-  sh_unknown.      (* invoke, ret, dret, retfmp, sink, dalloca, bump, getfmp, setfmp, msize, ... *)
+  sh_unknown.      (* invoke, ret, dret, retfmp, sink, msize, ... *)
 
 (* control instructions are executed by `step` itself and leave the store alone *)
 Definition CTL_OPS : list string := ["jmp"; "jnz"; "djmp"; "assert"; "assert_unreachable"].
